@@ -194,28 +194,32 @@ theorem head_end_to_end (c : ServeCfg) (st : StatFn) (rq : Parsed) (ps qs : List
     (h : respondParsed c st .http { rq with head := true } = some ps)
     (h2 : respondParsed c st .http { rq with head := false } = some qs) :
     flattenPieces ps <+: flattenPieces qs := by
-  by_cases hc1 : (rq.geminiInput.isSome || rq.badRequest) = true
-  · simp [respondParsed, hc1] at h
+  by_cases hb : rq.badRequest = true
+  · simp [respondParsed, hb, Wire.ofProto] at h
+  by_cases hi : rq.geminiInput.isSome = true
+  · have hb0 : rq.badRequest = false := by simpa using hb
+    simp [respondParsed, hb0, hi, Wire.ofProto] at h
+  have hb' : rq.badRequest = false := by simpa using hb
+  have hi' : rq.geminiInput.isSome = false := by simpa using hi
   · by_cases hc2 : isPrefixB (lit "/PYGOPHERD-HTTPPROTO-ICONS/") rq.selector = true
-    · simp [respondParsed, hc2, Wire.ofProto] at h
-    · have hc1' : (rq.geminiInput.isSome || rq.badRequest) = false := by simpa using hc1
-      have hc2' : isPrefixB (lit "/PYGOPHERD-HTTPPROTO-ICONS/") rq.selector = false := by simpa using hc2
+    · simp [respondParsed, hb', hi', hc2, Wire.ofProto] at h
+    · have hc2' : isPrefixB (lit "/PYGOPHERD-HTTPPROTO-ICONS/") rq.selector = false := by simpa using hc2
       cases hh : handled c st rq.selector with
       | notFound m =>
-        simp [respondParsed, hc1', hc2', Wire.ofProto, hh] at h h2
+        simp [respondParsed, hb', hi', hc2', Wire.ofProto, hh] at h h2
         rw [← h, ← h2]; exact List.prefix_refl _
       | document e d =>
-        simp [respondParsed, hc1', hc2', Wire.ofProto, hh] at h h2
+        simp [respondParsed, hb', hi', hc2', Wire.ofProto, hh] at h h2
         rw [← h, ← h2]; simp [flattenPieces, Piece.raw]
-      | crash => simp [respondParsed, hc1', hc2', Wire.ofProto, hh] at h
+      | crash => simp [respondParsed, hb', hi', hc2', Wire.ofProto, hh] at h
       | page e t =>
-        simp [respondParsed, hc1', hc2', Wire.ofProto, hh] at h h2
+        simp [respondParsed, hb', hi', hc2', Wire.ofProto, hh] at h h2
         rw [← h, ← h2]; simp [flattenPieces, Piece.raw]
       | menu self es =>
         by_cases hpt : c.pagetopper = true
-        · simp [respondParsed, hc1', hc2', Wire.ofProto, hh, hpt] at h
+        · simp [respondParsed, hb', hi', hc2', Wire.ofProto, hh, hpt] at h
         · have hpt' : c.pagetopper = false := by simpa using hpt
-          simp [respondParsed, hc1', hc2', Wire.ofProto, hh, hpt'] at h h2
+          simp [respondParsed, hb', hi', hc2', Wire.ofProto, hh, hpt'] at h h2
           cases hl : listingBody c.render View.http false self es with
           | none => simp [hl] at h2
           | some r =>
